@@ -117,6 +117,8 @@ class SrcInfo:
             self.structs[m.group(1)] = fields
         for m in re.finditer(r'\bstruct\s+(\w+)\s*(?:<[^{(;]*>)?\s*\(([^;]*)\)\s*;', src):
             self.structs[m.group(1)] = len(_split_top(m.group(2)))
+        for m in re.finditer(r'\bstruct\s+(\w+)\s*;', src):
+            self.structs.setdefault(m.group(1), [])      # unit struct
 
     # ---------------------------------------------------------------- lookups
     def variants(self, enum):
